@@ -36,17 +36,40 @@ for _t, _isint in (('double', 0), ('int', 1)):
       what='VectorT<T>::getVector() const / getVectorPtr() const return the shared std::vector mutable: a write through them on one vector must not reach its copy',
       out='as C10.c', assumptions=_COW_ASSUME, stubs=['throw_exp(msg,file,line): throws an int'])
 
-# C10.a  KrigingCalcul memo invalidation (shared with C04.b)
-_KC_TUS = ['src/Estimation/KrigingCalcul.cpp', 'src/Matrix/AMatrix.cpp', 'src/Matrix/AMatrixDense.cpp', 'src/Matrix/MatrixRectangular.cpp',
-           'src/Matrix/AMatrixSquare.cpp', 'src/Matrix/MatrixSquareSymmetric.cpp', 'src/Basic/AStringable.cpp']
-K('C10.a', property='C10', engine='symex', harness='C10/kcalc.cpp',
-  entries=['k_setData', 'k_setLHS', 'k_setRHS', 'k_setVar', 'k_setColCokUnique', 'k_setBayes', 'k_reset'], tus=_KC_TUS,
-  bounds={'quick': 'every null/non-null combination of the 18 memo matrices + _C_RHS/_X_RHS, every empty/non-empty combination of _Zstar/_Beta/_Z0p/_bDual/_cDual, '
-                   'every present/absent combination of the 13 input pointers, _neq/_nbfl/_nrhs/_ncck/_nxvalid in [0,3], arbitrary flags; arguments null or objects of fixed small shape'},
-  timeout_ms={'quick': 60000, 'thorough': 600000}, validate={'quick': 20, 'thorough': 50},
-  what='KrigingCalcul::setData, setLHS, setRHS, setVar, setColCokUnique, setBayes, resetLinkedTo* (7) with the _delete* graph: every memo that transitively depends '
-       '(table read from the _need* functions) on an input the call replaced is null/empty afterwards',
-  out='setXvalidUnique (matrix algebra); _C_RHS/_X_RHS as functions of Sigma/X; edge rankXvalidVars -> Zstar; values of the matrices',
-  assumptions=['KrigingCalcul object built by its constructor, then every field overwritten with the arbitrary pre-state',
-               'memo objects are real MatrixRectangular(1,1)/MatrixSquareSymmetric(1) so that delete runs the real destructors'],
-  stubs=['messerr / message: empty (error text only)', 'strlen: plain loop (solver build only)'])
+# C10.a  KrigingCalcul memo invalidation (shared with C04.b: constants in _kcalc_common.py)
+import importlib.util as _ilu, os as _os
+_sp = _ilu.spec_from_file_location('reg_kcalc_common', _os.path.join(_os.path.dirname(_os.path.abspath(__file__)), '_kcalc_common.py'))
+_kc = _ilu.module_from_spec(_sp)
+_sp.loader.exec_module(_kc)
+K('C10.a', property='C10', engine='symex', harness='C10/kcalc.cpp', entries=_kc._KC_ENTRIES + ['k_reset'], tus=_kc._KC_TUS,
+  bounds=_kc._KC_BOUNDS, timeout_ms={'quick': 60000, 'thorough': 600000}, validate={'quick': 6, 'thorough': 40},
+  what=_kc._KC_WHAT, out=_kc._KC_OUT, assumptions=_kc._KC_ASSUME, stubs=_kc._KC_STUBS)
+
+# C10.b  covariance optimisation typestate (pre/post-process pairing)
+_OPT_TUS = ['src/Covariances/ACovAnisoList.cpp', 'src/Covariances/ACov.cpp', 'src/Basic/VectorHelper.cpp', 'src/Space/SpacePoint.cpp',
+            'src/Space/ASpaceObject.cpp', 'src/Matrix/AMatrix.cpp', 'src/Matrix/AMatrixDense.cpp', 'src/Matrix/MatrixRectangular.cpp',
+            'src/Matrix/AMatrixSquare.cpp', 'src/Matrix/MatrixSquareSymmetric.cpp', 'src/Basic/AStringable.cpp']
+K('C10.b', property='C10', engine='symex', harness='C10/optim.cpp', entries=['k_optim_rect', 'k_optim_sym'], tus=_OPT_TUS,
+  defines={'all': {'VF_NV': 2, 'VF_NE': 2}},
+  bounds={'quick': 'every combination of 0..2 active variables (each side) and 0..2 valid samples per variable; variable ranks, sample ranks, ivar0/jvar0 arbitrary ints; db2 null or given; one basic structure'},
+  timeout_ms={'quick': 60000, 'thorough': 600000}, validate={'quick': 5, 'thorough': 20},
+  what='ACovAnisoList::evalCovMatrixOptim, evalCovMatrixSymmetricOptim (real control flow, every callee overridden): on every return path the number of '
+       'optimizationPostProcess calls equals the number of optimizationPreProcess calls',
+  out='what Pre/PostProcess do (ACov/CovAniso caches themselves), the matrix values, KrigingSystem::isReady/conclusion pairing',
+  assumptions=['ACovAnisoList, Db, CovAniso objects are raw storage (vptr of ACovAnisoList set to the real vtable); the overridden callees do not touch them'],
+  stubs=['ACov::optimizationPreProcess(const Db*): counts', 'ACov::optimizationPostProcess(): counts', 'ACov::optimizationSetTarget, ACovAnisoList::optimizationSetTargetByIndex: count',
+         'ACov::_getActiveVariables: list of the scenario length, arbitrary content', 'Db::getMultipleRanksActive: one list per variable of the scenario length, arbitrary content',
+         'Db::getSampleAsSPInPlace: empty', 'CovAniso::evalOptimInPlace: counts', 'ACov::_updateCovMatrixSymmetricVerr: empty', 'AMatrix::resize: empty',
+         'messerr: empty', 'ASpaceObject(const ASpace*), ~ASpaceObject, SpacePoint(const ASpace*), ~SpacePoint: no default-space cloning'])
+
+# C10.e  neighbourhood memo reset (the select part of the same harness is C04.c)
+K('C10.e', property='C10', engine='symex', harness='C04/neigh.cpp', entries=['k_reset'],
+  tus=['src/Neigh/ANeigh.cpp', 'src/Space/ASpaceObject.cpp', 'src/Basic/ASerializable.cpp', 'src/Basic/AStringable.cpp', 'src/Tree/Ball.cpp'],
+  defines={'quick': {'VF_M': 3, 'VF_N': 3}, 'thorough': {'VF_M': 4, 'VF_N': 4}},
+  bounds={'quick': 'memo of length 0..3 with arbitrary sorted content, arbitrary previous target and flag'},
+  timeout_ms={'quick': 60000, 'thorough': 600000}, validate={'quick': 10, 'thorough': 30},
+  what='ANeigh::reset, ANeigh::setIsChanged (what attach() calls): memo empty, isUnchanged() false afterwards; reset also forgets the previous target (_iechMemo == -1)',
+  out='attach() itself (dynamic_cast on the Db, ball tree); the other fields reset() clears (_rankColCok, flags) are not memo state',
+  assumptions=['ANeigh sub-object built by the real constructor of a test subclass; Db objects are raw storage, never dereferenced'],
+  stubs=['TNeigh (test subclass of ANeigh): getNeigh/hasChanged/getMaxSampleNumber not called here', 'ASpaceObject(const ASpace*), ~ASpaceObject: no default-space cloning',
+         'Ball::Ball(data,...): no tree built', 'Db::isSampleIndexValid, messageAbort, memcmp: not reached here'])
